@@ -1337,6 +1337,22 @@ func (w *walker) call(v *ast.CallExpr, out *[]Node, outer bool, bind interface{}
 					}
 				}
 			}
+			// WriteBool(b) with b a boolean variable/expression: the same as
+			// `if b { WriteBool(true) } else { WriteBool(false) }`, which lets the reader's branch on
+			// the value it read line up with the writer's later `if b { ... }`
+			if kind == "Bool" && p.Const == nil && len(v.Args) == 1 {
+				if tv, ok := w.c.Info.Types[v.Args[0]]; ok && tv.Type != nil {
+					if b, ok := tv.Type.Underlying().(*types.Basic); ok && b.Info()&types.IsBoolean != 0 {
+						if _, isCall := ast.Unparen(v.Args[0]).(*ast.CallExpr); !isCall {
+							pt, pf := *p, *p
+							pt.Const, pf.Const = constant.MakeBool(true), constant.MakeBool(false)
+							pt.Label, pf.Label = "", ""
+							*out = append(*out, &If{Pos: v.Pos(), Cond: v.Args[0], Then: []Node{&pt}, Else: []Node{&pf}, Fn: w.c})
+							return
+						}
+					}
+				}
+			}
 			*out = append(*out, p)
 			return
 		case strings.HasPrefix(name, "Read") && !w.out:
@@ -1544,15 +1560,32 @@ func countDown(f *ast.ForStmt) ast.Expr {
 	if !condOK {
 		return nil
 	}
+	// the count: the initial value itself when it is a plain variable or field (this.RecordCount),
+	// else the counter (bound by the init statement to what it read)
+	var count ast.Expr = id
+	rhs := ast.Unparen(init.Rhs[0])
+	for {
+		if call, ok := rhs.(*ast.CallExpr); ok && len(call.Args) == 1 {
+			if fid, ok := call.Fun.(*ast.Ident); ok && (fid.Name == "int" || fid.Name == "int32" || fid.Name == "int64" || fid.Name == "uint" || fid.Name == "uint32") {
+				rhs = ast.Unparen(call.Args[0])
+				continue
+			}
+		}
+		break
+	}
+	switch rhs.(type) {
+	case *ast.Ident, *ast.SelectorExpr:
+		count = rhs
+	}
 	switch p := f.Post.(type) {
 	case *ast.IncDecStmt:
 		if p.Tok == token.DEC && isID(p.X) {
-			return id
+			return count
 		}
 	case *ast.AssignStmt:
 		if p.Tok == token.SUB_ASSIGN && len(p.Lhs) == 1 && len(p.Rhs) == 1 && isID(p.Lhs[0]) {
 			if b, ok := ast.Unparen(p.Rhs[0]).(*ast.BasicLit); ok && b.Value == "1" {
-				return id
+				return count
 			}
 		}
 	}
